@@ -6,7 +6,9 @@
 //! attributes and the raw `<f>` / `<v>` content, and the `<si>` list) and `c01 load <w> <facts>` (the
 //! request carries those facts so that the model READER is run on exactly what the real reader saw;
 //! reply: dump of the reloaded workbook).  Oracle on the implementation: reloaded non-blank cells ==
-//! stored non-blank cells (kind, value text, formula text, coordinate).
+//! stored non-blank cells (kind, value text, formula text, coordinate), where a value stored with
+//! `set_value_lazy` and never resolved counts as the typed value the public resolver `get_value_lazy`
+//! makes of it (`expected_book`; the writer converts it on its own path, `Cell::write_to`).
 use crate::common::*;
 use std::io::Cursor;
 use umya_spreadsheet::structs::{Cell, CellRawValue, RichText, Spreadsheet, Style, TextElement};
@@ -65,9 +67,12 @@ fn formula_str(c: &Cell) -> String {
 fn styled(c: &Cell) -> bool {
     c.get_style() != &Style::default()
 }
+/// last field of an observation: the runs of a rich text, `=<text>` for an unresolved lazy value (its stored
+/// text, which `get_value` does not show), `~` otherwise
 fn runs_of(c: &Cell) -> String {
     match c.get_raw_value() {
         CellRawValue::RichText(rt) => runs_str(rt),
+        CellRawValue::Lazy(v) => format!("={}", hexs(v)),
         _ => "~".into(),
     }
 }
@@ -84,6 +89,8 @@ pub struct CellD {
     formula: String,
     styled: bool,
     runs: String,
+    /// the stored cell held an unresolved lazy value (set by `expected_book` only)
+    lazy: bool,
 }
 impl CellD {
     fn blank_unstyled(&self) -> bool {
@@ -108,6 +115,38 @@ fn dump_book(book: &Spreadsheet, n: usize) -> Vec<Vec<CellD>> {
                     formula: formula_str(c),
                     styled: styled(c),
                     runs: runs_of(c),
+                    lazy: false,
+                })
+                .collect()
+        })
+        .collect()
+}
+/// What a reload of the saved workbook must show: the stored cells, where a value stored with `set_value_lazy` and
+/// never resolved stands for the typed value the public resolver makes of it (`get_value_lazy` on a copy of the
+/// cell; the resolver drops the formula of the copy, the stored formula is what must survive).
+fn expected_book(book: &Spreadsheet, n: usize) -> Vec<Vec<CellD>> {
+    (0..n)
+        .map(|i| {
+            book.get_sheet(&i)
+                .unwrap()
+                .get_cell_collection_sorted()
+                .iter()
+                .map(|c| {
+                    let lazy = matches!(c.get_raw_value(), CellRawValue::Lazy(_));
+                    let mut k: Cell = (*c).clone();
+                    if lazy {
+                        let _ = k.get_value_lazy();
+                    }
+                    CellD {
+                        col: *c.get_coordinate().get_col_num(),
+                        row: *c.get_coordinate().get_row_num(),
+                        kind: kind_of(&k).to_string(),
+                        val: hexs(&k.get_value()),
+                        formula: formula_str(c),
+                        styled: styled(c),
+                        runs: runs_of(&k),
+                        lazy,
+                    }
                 })
                 .collect()
         })
@@ -579,6 +618,7 @@ fn report_diffs(out: &mut Out, line: &str, w: &str, stored: &[Vec<CellD>], got: 
                 .with("kind", s.map(|x| x.kind.clone()).unwrap_or("-".into()))
                 .with("formula", s.map(|x| if x.formula != "~" { "1" } else { "0" }).unwrap_or("-"))
                 .with("runs", s.map(nruns).unwrap_or("-".into()))
+                .with("lazy", s.map(|x| if x.lazy { "1" } else { "0" }).unwrap_or("-"))
                 .with("got_kind", g.map(|x| x.kind.clone()).unwrap_or("-".into()))
                 .with("stored", s.map(|x| x.render()).unwrap_or("-".into()))
                 .with("reloaded", g.map(|x| x.render()).unwrap_or("-".into())),
@@ -726,7 +766,13 @@ pub fn exec(out: &mut Out, st: &mut State, line: &str) -> (String, bool) {
                 None => return ("bad-op".into(), false),
             };
             let n = st.nsheets;
-            let stored = dump_book(&st.book, n);
+            let stored = match guard(|| expected_book(&st.book, n)) {
+                Ok(s) => s,
+                Err(_) => {
+                    out.oracle_fail(Fail::new("load-panic").with("op", line).with("detail", "resolving the stored lazy values"));
+                    return ("panic".into(), false);
+                }
+            };
             match guard(|| umya_spreadsheet::reader::xlsx::read_reader(Cursor::new(bytes), true)) {
                 Ok(Ok(book)) => {
                     let got = match guard(|| dump_book(&book, n)) {
@@ -927,7 +973,8 @@ fn gen_cell_ops(rng: &mut Rng, out: &mut Out) -> Vec<String> {
             }
             97 => {
                 out.count("kind.lazy");
-                format!("l {}", hex(&gen_text(rng)))
+                let t = gen_text(rng);
+                format!("l {}{}", hex(&t), guess_hint(&t))
             }
             _ => {
                 out.count("kind.blank");
@@ -1003,7 +1050,7 @@ pub fn run(out: &mut Out, tier: Tier, seed: u64, replay: Option<Vec<String>>) {
     }
     let mut rng = Rng::new(seed ^ 0xC01);
     let (books, num_batches) = if tier == Tier::Thorough { (5000, 2000) } else { (300, 20) };
-    // the witnesses of the defects repaired by fix 1-4 and of the known findings, first
+    // the witnesses of the defects repaired by fix 1-6 and of the known finding, first
     let witnesses: Vec<Vec<String>> = vec![
         vec!["e 234e2f41".into()],                                   // #N/A
         vec!["n 5".into(), "f 41312b31".into()],                     // formula, cached number
@@ -1011,10 +1058,22 @@ pub fn run(out: &mut Out, tier: Tier, seed: u64, replay: Option<Vec<String>>) {
         vec!["b 1".into(), "f 4131".into()],
         vec!["e 234449562f3021".into(), "f 41312f30".into()],        // formula, cached #DIV/0!
         vec!["s 78".into(), "f 20413120".into()],                    // formula text " A1 "
-        vec!["r ~:61".into(), "f 4131".into()],                    // KNOWN: rich text cached under a formula
+        vec!["r ~:61".into(), "f 4131".into()],                      // fix 5: rich text cached under a formula
         vec!["r -".into()],                                          // KNOWN: rich text without runs
-        vec!["l 616263".into()],                                     // KNOWN: unresolved lazy value
+        vec!["l 616263".into()],                                     // fix 6: unresolved lazy value "abc"
         vec!["s 610d0a62".into()],                                   // a\r\nb
+        vec!["r 1:7820+~:79".into(), "f 4231264331".into()],         // fix 5: two runs under B1&C1
+        vec!["l 313233 num=123".into()],                             // fix 6: lazy "123"
+        vec!["l 54525545".into()],                                   // fix 6: lazy "TRUE"
+        vec!["l 31653520".into()],                                   // fix 6: lazy "1e5 " (trailing blank: not a number) -> text
+        vec!["l 316535 num=100000".into()],                          // fix 6: lazy "1e5" -> 100000
+        vec!["l 616263".into(), "f 4131".into()],                    // fix 6: lazy "abc" under a formula
+        vec!["l 313233 num=123".into(), "f 4131".into()],            // fix 6: lazy "123" under a formula
+        vec!["l 234e2f61".into(), "f 4131".into()],                  // fix 6: lazy "#N/a" under a formula -> error
+        vec!["l -".into()],                                          // fix 6: lazy "" (blank: not written)
+        vec!["l -".into(), "f 4131".into()],                         // fix 6: lazy "" under a formula
+        vec!["l -".into(), "y".into()],                              // fix 6: lazy "" with a style
+        vec!["r -".into(), "f 4131".into()],                         // KNOWN: rich text without runs, under a formula
     ];
     for b in 0..books {
         let n = if b == 0 { 1 } else { rng.range(1, 4) as usize };
